@@ -179,6 +179,15 @@ func constMisfit(v constant.Value, t types.Type) string {
 	return "constants are values of basic types"
 }
 
+// inGenericScope: the function has type parameters of its own or is a method of a generic type
+func inGenericScope(f *types.Func) bool {
+	sig := f.Type().(*types.Signature)
+	if sig.TypeParams().Len() > 0 || sig.RecvTypeParams().Len() > 0 {
+		return true
+	}
+	return false
+}
+
 // judgeResults: the clauses of C14 that need no model — shape, assignability, stability.
 func judgeResults(p gengotypes.Package, f *types.Func) (out string, n int, lens []int, verdict string) {
 	defer func() {
@@ -221,8 +230,11 @@ func judgeResults(p gengotypes.Package, f *types.Func) (out string, n int, lens 
 				if b, ok := a.Type.(*types.Basic); ok && b.Info()&types.IsUntyped != 0 {
 					continue
 				}
-				if mentionsTypeParam(want, 0) || mentionsTypeParam(a.Type, 0) {
+				if mentionsTypeParam(want, 0) {
 					continue
+				}
+				if mentionsTypeParam(a.Type, 0) && inGenericScope(f) {
+					continue // inside a generic function or a method of a generic type, type parameters are types like any other
 				}
 				return out, n, lens, fmt.Sprintf("result %d: alternative of type %s is not assignable to the declared %s", i, a.Type, want)
 			}
@@ -774,6 +786,27 @@ func progBatch(cases []Case) []string {
 // ---------------------------------------------------------------- hand-written shapes outside the core language (oracle only)
 
 var c14Extended = []struct{ name, src string }{
+	{"generic-type-instantiated-with-error", `package p
+
+type Box[T any] struct {
+	v     T
+	items []T
+}
+
+func (b Box[T]) Get() T { return b.v }
+
+func (b Box[T]) First() (T, bool) { return b.items[0], len(b.items) > 0 }
+
+func Last() (error, bool) {
+	var b Box[error]
+	return b.First()
+}
+
+func F() error {
+	var b Box[error]
+	return b.Get()
+}
+`},
 	{"closure-more-results-than-callee", `package p
 
 import "errors"
